@@ -207,7 +207,36 @@ ECore == {"D0", "D1", "D1F", "D2F", "F1", "OV", "Z1", "RI"}
 ESeqs == [k : {"eseq"}, mode : {"pas"}, sk : {0, 1}, ls : SeqsOver(EAlpha, T(3, 2))]
          \cup [k : {"eseq"}, mode : {"act"}, sk : {1}, ls : SeqsOver(EAlpha, 2)]
          \cup T([k : {"eseq"}, mode : {"pas"}, sk : {1}, ls : [1..4 -> ECore]], {})
-Cases == Frames \cup Seqs \cup Pressure \cup ESeqs
+(* ICMP ERROR frames aimed at live state.  ty: v4 net/host/proto/port/big/admin = type 3 codes 0,1,2,3,4,13,
+   ttl = type 11, param = type 12; v6 noroute/port = type 1 codes 0,4, big = type 2, ttl = 3, param = 4.
+   mtu: the next-hop MTU field of "big" (-1 = 0xffffffff, v6 only).  The quoted datagram names
+   tgt: an established connection (plain / timestamps / SACK negotiated; fl: data in flight or idle),
+   a connecting (SYN-SENT) socket, a half-open connection of the listener, a connected or a bound UDP
+   socket, or nothing; sq: right or wrong quoted sequence number; q: how much of the original is
+   quoted (full transport header + 8, 8 bytes, 4 bytes, the IP header only).  The harness then waits
+   longer than one retransmission timeout before the probes. *)
+MTU4 == {0, 1, 20, 40, 48, 52, 68, 576, 1279, 1280, 65535}
+MTU6 == MTU4 \cup {-1}
+EstT == {"est", "est-ts", "est-sack"}
+OthT == {"synsent", "halfopen", "udp-conn", "udp-bound", "none"}
+QQ == {"full", "t8", "t4", "ip"}
+IErrRec(v, tys, mtus, tgts, fls, sqs, qs) == [k : {"ierr"}, v : {v}, ty : tys, mtu : mtus, tgt : tgts, fl : fls, sq : sqs, q : qs]
+IErrKinds(v, tgts, fls, sqs, qs) ==
+    IF v = 4 THEN IErrRec(4, {"net", "host", "proto", "port", "admin", "ttl", "param"}, {0}, tgts, fls, sqs, qs)
+                  \cup IErrRec(4, {"big"}, MTU4, tgts, fls, sqs, qs)
+             ELSE IErrRec(6, {"noroute", "port", "ttl", "param"}, {0}, tgts, fls, sqs, qs)
+                  \cup IErrRec(6, {"big"}, MTU6, tgts, fls, sqs, qs)
+IErrs == T(IErrKinds(4, EstT, {"inflight", "idle"}, {"right", "wrong"}, QQ)
+           \cup IErrKinds(4, OthT, {"idle"}, {"right", "wrong"}, QQ)
+           \cup IErrKinds(6, {"est-ts"}, {"inflight", "idle"}, {"right", "wrong"}, {"full", "t4"})
+           \cup IErrKinds(6, {"udp-bound", "none"}, {"idle"}, {"right", "wrong"}, {"full", "t4"}),
+           \* thin: every kind against every target, and every MTU x quote against the connections with data in flight
+           IErrKinds(4, EstT, {"inflight", "idle"}, {"right"}, {"full"})
+           \cup IErrKinds(4, OthT, {"idle"}, {"right"}, {"full"})
+           \cup IErrRec(4, {"big"}, MTU4, EstT, {"inflight"}, {"right", "wrong"}, QQ)
+           \cup IErrKinds(6, {"est-ts"}, {"inflight"}, {"right"}, {"full", "t4"})
+           \cup IErrKinds(6, {"udp-bound", "none"}, {"idle"}, {"right"}, {"full"}))
+Cases == Frames \cup Seqs \cup Pressure \cup ESeqs \cup IErrs
 
 -----------------------------------------------------------------------------
 (* Numbers for the concretiser *)
